@@ -10,7 +10,7 @@ package mqtt
 //@   props C20
 //@   pure
 //@   requires m != nil
-//@   ensures[C20] result != nil && fresh(result)
+//@   ensures[C14,C20] result != nil && fresh(result)
 //@   ensures[C04,C05,C20] same_fields: result.Topic == m.Topic && result.QoS == m.QoS && result.Retain == m.Retain && result.Dup == m.Dup && result.ID == m.ID
 //@   ensures[C04,C05,C20] same_payload: seqEq(seqOf(result.Payload), seqOf(m.Payload))
 //@   ensures[C20] len(m.Payload) > 0 ==> fresh(result.Payload)
@@ -21,10 +21,10 @@ package mqtt
 //@   props C15
 //@   requires c != nil
 //@   assigns c.idLast
-//@   ensures[C15] nonzero: result != 0
-//@   ensures[C15] atomic_only: evCount("sync/atomic.AddUint32") >= 1 && evCount("sync/atomic.StoreUint32") == 0
-//@   ensures[C15] from_own_increment: evCount("(*BaseClient).newID") == 0 ==> result == uint16(evRet[uint32]("sync/atomic.AddUint32", evCount("sync/atomic.AddUint32")-1, 0))
-//@   ensures[C15] delegates: evCount("(*BaseClient).newID") >= 1 ==> result == evRet[uint16]("(*BaseClient).newID", evCount("(*BaseClient).newID")-1, 0)
+//@   ensures[C05,C12,C15] nonzero: result != 0
+//@   ensures[C05,C15] atomic_only: evCount("sync/atomic.AddUint32") >= 1 && evCount("sync/atomic.StoreUint32") == 0
+//@   ensures[C05,C15] from_own_increment: evCount("(*BaseClient).newID") == 0 ==> result == uint16(evRet[uint32]("sync/atomic.AddUint32", evCount("sync/atomic.AddUint32")-1, 0))
+//@   ensures[C05,C15] delegates: evCount("(*BaseClient).newID") >= 1 ==> result == evRet[uint16]("(*BaseClient).newID", evCount("(*BaseClient).newID")-1, 0)
 
 // Any 65535 consecutive values of the 32-bit counter have pairwise distinct low halves,
 // across wrap-around of both the 16-bit and the 32-bit value: two identifiers handed out
@@ -93,7 +93,7 @@ package mqtt
 //@   requires d != nil && !sameArray(*d, s)
 //@   assigns *d
 //@   let d0 []Subscription = *d
-//@   ensures[C08] appended: len(*d) == len(d0)+len(s) && forall(0, len(d0), func(i int) bool { return (*d)[i] == d0[i] }) &&
+//@   ensures[C01,C08] appended: len(*d) == len(d0)+len(s) && forall(0, len(d0), func(i int) bool { return (*d)[i] == d0[i] }) &&
 //@        forall(0, len(s), func(i int) bool { return (*d)[len(d0)+i] == s[i] })
 //@   ensures[C08] nodup: nodupTopics(d0, len(d0)) ==> nodupTopics(*d, len(*d))
 
